@@ -351,7 +351,11 @@ func (s *writer) routine() {
 	defer func() {
 		atomic.StoreUint32(&s.running, 0)
 
-		if err == nil && s.isAlive() {
+		// also when the connection is being ended: what this routine has handed to the buffered writer
+		// may end in the middle of a packet, and the close sequence writes a DISCONNECT right after -
+		// the client would read it as the rest of that packet. The close sequence bounds the write
+		// with its deadline, and nothing further is popped once quit is closed
+		if err == nil {
 			_ = wr.Flush()
 		}
 
